@@ -285,7 +285,17 @@ fn main() {
             let mut g = G { r: SplitMix64(seed ^ 0xC10) };
             let out = std::io::stdout();
             let mut out = out.lock();
-            for k in 0..n {
+            // deterministic prefix: one instance of every elementwise / reduction / variadic operator
+            let mut fixed: Vec<String> = vec![];
+            for op in UNARY_OPS { let t = g.shape(2); fixed.push(g.case(op, vec![], 1, vec![G::inp(if *op == "Not" { 'i' } else { 'f' }, Sym::Shape(t))])); }
+            for op in BINARY_OPS.iter().chain(["Max", "Min", "Sum", "Mean"].iter()) {
+                let dt = if ["And", "Or", "Xor", "Mod"].contains(op) { 'i' } else { 'f' };
+                let a = g.shape(2); let b = vec![a[1].clone()];
+                fixed.push(g.case(op, vec![], 1, vec![G::inp(dt, Sym::Shape(a)), G::inp(dt, Sym::Shape(b))]));
+            }
+            for op in REDUCE_OPS { let t = g.shape(2); fixed.push(g.case(op, vec![("keepdims", Attr::Int(0))], 1, vec![G::inp('f', Sym::Shape(t)), G::inp('i', Sym::Vector(vec![SymExpr::Value(-1)]))])); }
+            for l in fixed.iter().take(n) { writeln!(out, "{}", l).unwrap(); }
+            for k in 0..n.saturating_sub(fixed.len()) {
                 let line = if k % 7 == 6 {
                     // graph chain through the real driver
                     let rk = 1 + g.r.below(3) as usize;
